@@ -22,7 +22,7 @@ default where the argument is the empty string or missing} (and nothing of the i
        contact input sequences (Coq-verified bisimulation checker, Flow/*);
    (3) the reference meaning of the desugared rows (RowSem: an edge from a block leaves every loose exit) is the sugared flow's;
    (4) a required argument that is not given (blank, no default) is reported.
-CORRESPONDENCE (model Comp/InsertArgs.v, wire 103 fn 3): for every insertion the implementation performs, the context it
+CORRESPONDENCE (model Comp/InsertArgs.v, wire 203 fn 1): for every insertion the implementation performs, the context it
 builds for the inserted template (spy on ContentIndexParser._parse_flow -> FlowParser) equals the model's
 `insert_context` of (declarations, data row, the insert row's argument cell evaluated by Tmpl/MiniJinja in the inserting
 context the implementation had at that moment)."""
@@ -1030,7 +1030,7 @@ def judge(ctx, wb, dist, nontrivial, samples, spy_budget):
 
 
 # =====================================================================================================================
-# correspondence with Comp/InsertArgs.v (wire 103 fn 3)
+# correspondence with Comp/InsertArgs.v (wire 203 fn 1)
 # =====================================================================================================================
 def model_value_ok(v):
     if isinstance(v, float) or isinstance(v, Rows):
@@ -1071,8 +1071,8 @@ def model_insert_context(m, defs, sheets, row, outer, cell):
     e_row = c16.enc_ctx({k: to_c16(x) for k, x in (row or {}).items()})
     e_outer = c16.enc_ctx({k: to_c16(x) for k, x in outer.items()})
     e_cell = "()" if cell is None else "(" + c16.enc_cell(cell) + ")"
-    out = parse_sexp(m.ask(f"(103 3 {e_defs} {e_sheets} {e_row} {e_outer} {e_cell})"))
-    if out == [999999, 0] or not isinstance(out, list):
+    out = parse_sexp(m.ask(f"(203 1 {e_defs} {e_sheets} {e_row} {e_outer} {e_cell})"))
+    if out == [999998] or not isinstance(out, list):
         return None
     if out[0] == 999999:
         return ("err", out[1])
